@@ -133,6 +133,21 @@ def signature(text):
     return first + " | " + " <- ".join(parts)
 
 
+def timeout_signature(stack):
+    """where a run that exceeded its CPU bound was executing: the ar-go-tools frames of the main goroutine, outermost
+    first, names only (the innermost frames differ from sample to sample, the entry path into the loop does not)"""
+    for blk in stack.split("\n\n"):
+        if "main.main()" in blk:
+            fr = [fn for fn, _, _ in frames_of(blk)]
+            fr.reverse()
+            out = []
+            for fn in fr:
+                if not out or out[-1] != fn:
+                    out.append(fn)
+            return "timeout | " + " > ".join(out[:6])
+    return "timeout | (no main goroutine in the dump)"
+
+
 def known_for(ctx, kf, analysis, sig):
     for e in kf:
         if e.get("status") != "known":
@@ -159,7 +174,7 @@ def outcome_of(res, a):
             return "panic", r["panic"]
         return ("error" if r["err"] else "result"), r["err"]
     if res["timeout"] == a:
-        return "timeout", "no return within %d s" % TIMEOUT
+        return "timeout", res["timeout_stack"]
     if res["running"] == a:
         if res["killed"]:
             return "timeout", "process killed by the outer timeout"
